@@ -233,7 +233,7 @@ func runSurveyor(t *testing.T, cfg svCfg) sim.Result {
 		c := &svScn{s: s, cfg: cfg, pipes: map[string]*vt.Pipe{}, id2p: map[uint32]string{}}
 		s.Net.Decode = c.decode
 		c.proto = surveyor.NewProtocol()
-		rp := &hx.RecProto{Protocol: c.proto, Rec: s.Rec}
+		rp := &hx.RecProto{Protocol: c.proto, Rec: s.Rec, Early: true}
 		c.sock = protocol.MakeSocket(rp)
 		hx.Hook(c.sock, s.Rec, func(ev, name string, p mangos.Pipe) { c.id2p[p.ID()] = name })
 		c.base = surveyor.VerifSnapshot(c.proto, nil).NextID
